@@ -9,7 +9,7 @@ CHECK = e1(
     bq="all label sequences of length 0..4 over the 21-label class alphabet (the 20 labels of the design plus an "
        "upper-case hex digit) and of length 5 over a 15-label sub-alphabet (without 9, 00, F, x, 1a, IN-ADDR: 21^5 "
        "sequences do not fit the quick budget), each x 11 roots x 3 trailing-dot variants; <=2 label edits "
-       "(replace/insert/delete over 21 alternative labels) from the k-nibble ip6.arpa names, k=0..34, and the k-octet "
+       "(replace/insert/delete over 22 alternative labels) from the k-nibble ip6.arpa names, k=0..34, and the k-octet "
        "in-addr.arpa names, k=0..6, each without and with a trailing dot",
     bt="as quick with label sequences of length 0..5 over the 21 labels and of length 6 over the 15-label "
        "sub-alphabet",
